@@ -110,6 +110,7 @@ fn c12(dir: &Path, out: &mut Outcome) -> R {
     };
     for stepwise in [false, true] {
         crate::c12::LINE_ROW_BY_ROW.with(|c| c.set(false));
+        crate::c12::INCREMENTAL_WRITE.with(|c| c.set(false));
         match convert_dwarf(&map, false, stepwise) {
             Ok(o) => {
                 let dwarf = load_map(&o, false);
